@@ -6,7 +6,7 @@ if [ -n "$(git -C /repo status --porcelain)" ]; then echo "/repo not clean"; exi
 for d in seeded/*/; do
   name=$(basename $d); prop=${name%%-*}
   git -C /repo apply /verif/$d/patch.diff || { echo "$name: patch does not apply" >> $out; continue; }
-  ./check $prop > scratch/seed_run.out 2>&1; rc=$?
+  VERIF_SELFTEST=1 ./check $prop > scratch/seed_run.out 2>&1; rc=$?      # (self-test: evidence and replays go to scratch/)
   git -C /repo checkout -- .
   echo "== $name exit=$rc" >> $out
   grep -E "^(VIOLATION|UNDECIDED|CHECKER)" scratch/seed_run.out | sed -E 's/.*obligation=//' | cut -c1-160 | sort -u >> $out
